@@ -42,6 +42,7 @@ Already-known mutants for this property (do NOT reuse these ideas; find differen
 REQUIREMENTS for each of your two mutants
 - A small source change (a few lines, the kind of slip or "simplification" a maintainer could plausibly commit) in non-test .go files of the library. Do not edit tests, golden files, go.mod. Do not add build tags. Lines containing `vhook(` are instrumentation: leave them alone (you may leave them in place next to code you change).
 - The change must make the property FALSE for some input / configuration / history / schedule, but it MUST need something SPECIFIC to manifest (prefer: a multi-step history, an interaction of two configuration settings, state carried across calls on the same object, an ordering of operations, a fault at one particular point) - a particular interleaving, a fault at a particular point, a multi-step sequence of operations, an unusual (but valid) input, a particular combination of configuration values, or two cooperating sites that each look fine alone - NOT something ordinary use or the existing tests expose at once.
+- Also worth a look (round 7): two public functions that must agree with each other (what one writes the other reads), hand-built structs against the values samlsp.New / samlidp.New produce, unusually large inputs (many cookies, long lists, many key descriptors), case / Unicode normalisation of names and URLs, HTTP method and Content-Type variants of the same request, repeated XML attributes or child elements where one is expected, clock values at the edges of what time.Time or a JWT NumericDate represent.
 - Look where earlier rounds did not: the process environment (time zone, locale, GOMAXPROCS), package-level variables and caches, values reused across calls or shared between two objects, error paths that leave state behind, optional XML elements / attributes and configuration fields that no existing test sets, second and later elements of a list, defaults that differ between two constructors of the same thing.
 - The two mutants must differ in mechanism (different function or different clause of the property).
 - With the mutant applied: `cd {wt} && GOFLAGS=-mod=mod GOPROXY=off GOSUMDB=off GOTOOLCHAIN=local go build ./... && go test -vet=off -count=1 ./...` must be all ok (the whole suite, unedited).
